@@ -248,3 +248,51 @@ Qed.
 (* a rational given by numerator and positive denominator *)
 Lemma Qmake_eq_cross n d n' d' : 0 < d -> 0 < d' -> n * d' = n' * d -> Qmake n (Z.to_pos d) == Qmake n' (Z.to_pos d').
 Proof. intros. unfold Qeq. simpl. rewrite !Z2Pos.id by lia. assumption. Qed.
+
+(* ------------------------------------------------------------------------------------------ *)
+(* specification shapes                                                                        *)
+
+(* an operation returned a value, the value is canonical and denotes q: no abort, no undefined
+   behaviour, exact, canonical — all at once *)
+Definition ok_exact (r : res fr) (q : Q) : Prop := exists x, r = Ok x /\ wf x /\ value x == q.
+
+(* postcondition of a word path that computes the rational q *)
+Definition wpost (w : mres (Z * Z)) (q : Q) : Prop :=
+  match w with
+  | MOk (n, d) => wfW n d /\ Qmake n (Z.to_pos d) == q
+  | MOvf => True
+  | MErr _ => False
+  end.
+
+Lemma wpost_eq w q q' : q == q' -> wpost w q -> wpost w q'.
+Proof. intros E. destruct w as [[n d]| |e]; simpl; auto. intros [H1 H2]. split; auto. rewrite H2. exact E. Qed.
+
+Lemma wpost_finish w slow q :
+  wpost w q -> ok_exact slow q -> ok_exact (finish w slow) q.
+Proof.
+  unfold ok_exact. destruct w as [[n d]| |e]; simpl; intros H Hs; try contradiction; auto.
+  destruct H as [H1 H2]. exists (Word n d). repeat split; try apply H1. exact H2.
+Qed.
+
+(* products of a word and an uword stay well inside lword *)
+Lemma mul_w_uw x y : WORD_MIN <= x <= WORD_MAX -> 0 <= y <= UWORD_MAX ->
+  -9223372034707292160 <= x * y <= 9223372030412324865.
+Proof. unfold WORD_MIN, WORD_MAX, UWORD_MAX. intros. nia. Qed.
+
+Lemma mul_uw_uw x y : 0 <= x <= UWORD_MAX -> 0 <= y <= UWORD_MAX -> 0 <= x * y <= 18446744065119617025.
+Proof. unfold UWORD_MAX. intros. nia. Qed.
+
+Lemma div_le_self a b : 0 <= a -> 0 < b -> 0 <= a / b <= a.
+Proof. intros. split; [apply Z.div_pos; lia | apply Z.div_le_upper_bound; nia]. Qed.
+
+
+Lemma ok_exact_eq r q q' : q == q' -> ok_exact r q -> ok_exact r q'.
+Proof. intros E (x & H1 & H2 & H3). exists x. repeat split; auto. rewrite H3. exact E. Qed.
+
+(* the GMP path: canonical result of an exact computation, then try_fit_word *)
+Lemma big_path_exact q q' : Qred q == q' -> ok_exact (Ok (try_fit_word (Qred q))) q'.
+Proof.
+  intros E. exists (try_fit_word (Qred q)). split; [reflexivity|]. split.
+  - apply wf_try_fit_word. apply Qred_canonical.
+  - rewrite value_try_fit_word. exact E.
+Qed.
